@@ -21,6 +21,8 @@ enum Step {
     Offer { p: u8, n: u8 },
     /// every producer offers 50-350 lines in a tight loop, all released at the same instant
     Burst { n: u8 },
+    /// one line of 60 000 - 200 000 bytes (beyond any plausible internal chunk size)
+    OfferBig { p: u8, n: u8 },
     CloseGate,
     OpenGate,
     /// wait until every outstanding offer returned and the worker went idle
@@ -107,6 +109,16 @@ struct Producer {
     handle: Option<std::thread::JoinHandle<()>>,
 }
 
+/// a line for messages: long ones are cut
+fn short(b: &[u8]) -> String {
+    let t = String::from_utf8_lossy(b);
+    let t = t.trim_end();
+    if t.len() > 48 {
+        format!("{}..({} bytes)", &t[..24], b.len())
+    } else {
+        t.to_string()
+    }
+}
 fn wait_idle(producers: &[Producer], sh: &Arc<Shared>, timeout: Duration) -> bool {
     wait_idle2(producers, sh, timeout, true)
 }
@@ -208,6 +220,7 @@ fn run_case(case: &Case) -> Outcome {
     let mut backlog_at_drop = false;
     let mut gate = true;
     let mut bursts = 0usize;
+    let mut big = 0usize;
     let mut drop_took = Duration::ZERO;
     let inconclusive = |why: &str| Outcome { verdict: Verdict::Inconclusive(why.to_string()), nontrivial: false, classes: vec![], excluded_known: 0 };
 
@@ -238,6 +251,31 @@ fn run_case(case: &Case) -> Outcome {
                 let _ = producers[p].tx.send(Cmd::Offer(lines));
                 if case.lossy || gate {
                     // lossy offers never block; with the gate open the worker keeps draining
+                    if !wait_idle(&producers[p..=p], &sh, Duration::from_secs(10)) && guard.is_some() {
+                        return inconclusive("producer did not finish within 10 s");
+                    }
+                }
+            }
+            Step::OfferBig { p, n } => {
+                let p = p as usize % np;
+                serial[p] += 1;
+                let len = [60_000usize, 65_536, 65_537, 70_001, 131_073, 200_000][n as usize % 6];
+                let mut line = format!("p{p}-{:04}big", serial[p]).into_bytes();
+                line.extend((0..len).map(|i| b'a' + (i % 23) as u8));
+                line.push(b'\n');
+                let lines = vec![line];
+                if guard.is_some() {
+                    offered_before_drop[p].extend(lines.iter().cloned());
+                    if !gate {
+                        gate_closed_with_offers = true;
+                    }
+                } else {
+                    offered_after_drop += lines.len();
+                }
+                big += 1;
+                *producers[p].pending.0.lock().unwrap() += 1;
+                let _ = producers[p].tx.send(Cmd::Offer(lines));
+                if case.lossy || gate {
                     if !wait_idle(&producers[p..=p], &sh, Duration::from_secs(10)) && guard.is_some() {
                         return inconclusive("producer did not finish within 10 s");
                     }
@@ -329,7 +367,7 @@ fn run_case(case: &Case) -> Outcome {
     let log = sh.log.lock().unwrap().clone();
     let dropped = counter.dropped_lines();
     let results: Vec<Vec<(Vec<u8>, bool)>> = producers.iter().map(|p| p.results.lock().unwrap().clone()).collect();
-    let fail = |sig: &str, d: String| Outcome::fail(sig, format!("{d}; case = {}; writer log = {:?}", serde_json::to_string(case).unwrap_or_default(), log.iter().map(|c| match c { Call::Write { bytes, ok } => format!("W({}{})", String::from_utf8_lossy(bytes).trim_end(), if *ok { "" } else { " FAILED" }), Call::Flush { ok } => format!("F{}", if *ok { "" } else { "!" }), Call::Drop => "DROP".into() }).collect::<Vec<_>>()));
+    let fail = |sig: &str, d: String| Outcome::fail(sig, format!("{d}; case = {}; writer log = {:?}", serde_json::to_string(case).unwrap_or_default(), log.iter().map(|c| match c { Call::Write { bytes, ok } => format!("W({}{})", short(bytes), if *ok { "" } else { " FAILED" }), Call::Flush { ok } => format!("F{}", if *ok { "" } else { "!" }), Call::Drop => "DROP".into() }).collect::<Vec<_>>()));
 
     // I1/I2: every attempt is one whole offered buffer, none twice
     let all_offered: HashSet<Vec<u8>> = results.iter().flat_map(|r| r.iter().map(|x| x.0.clone())).collect();
@@ -337,7 +375,7 @@ fn run_case(case: &Case) -> Outcome {
     let attempts: Vec<&Vec<u8>> = log.iter().filter_map(|c| if let Call::Write { bytes, .. } = c { Some(bytes) } else { None }).collect();
     for a in &attempts {
         if !all_offered.contains(*a) {
-            return fail("underlying writer received something that is not one whole offered buffer", format!("{:?}", String::from_utf8_lossy(a)));
+            return fail("underlying writer received something that is not one whole offered buffer", format!("{:?}", short(a)));
         }
         if !seen.insert((*a).clone()) {
             return fail("a buffer was written twice", format!("{:?}", String::from_utf8_lossy(a)));
@@ -418,6 +456,9 @@ fn run_case(case: &Case) -> Outcome {
     if bursts > 0 && np > 1 {
         classes.push(if dropped > 0 { "simultaneous_burst_with_drops".into() } else { "simultaneous_burst".into() });
     }
+    if big > 0 {
+        classes.push("line_longer_than_60k".into());
+    }
     if offered_after_drop > 0 {
         classes.push("offers_after_guard_drop".into());
     }
@@ -441,6 +482,7 @@ impl Property for C15 {
         let step = prop_oneof![
             8 => (0u8..4, 0u8..6).prop_map(|(p, n)| Step::Offer { p, n }),
             1 => (0u8..4).prop_map(|n| Step::Burst { n }),
+            1 => (0u8..4, 0u8..6).prop_map(|(p, n)| Step::OfferBig { p, n }),
             2 => Just(Step::CloseGate),
             2 => Just(Step::OpenGate),
             1 => Just(Step::Settle),
@@ -455,7 +497,7 @@ impl Property for C15 {
         run_case(case)
     }
     fn rule(&self) -> String {
-        "case = capacity 1-8 x lossy|non-lossy x 1-4 producer threads x <=12 (thorough <=24) steps {Offer(p, 1-6 unique lines), Burst (every producer offers 50-350 lines in a tight loop, all released by a barrier), CloseGate (underlying write blocks), OpenGate, Settle, DropGuard (appended if absent; producers may offer afterwards)} x fault script (subset of the first 30 write attempts and the first 12 flushes fail). non-trivial: a fault was injected, or the guard was dropped with a backlog, or lines were offered while the writer was stalled and (lines were dropped | mode is non-lossy); distinct by case".into()
+        "case = capacity 1-8 x lossy|non-lossy x 1-4 producer threads x <=12 (thorough <=24) steps {Offer(p, 1-6 unique lines), OfferBig(p, one line of 60 000-200 000 bytes), Burst (every producer offers 50-350 lines in a tight loop, all released by a barrier), CloseGate (underlying write blocks), OpenGate, Settle, DropGuard (appended if absent; producers may offer afterwards)} x fault script (subset of the first 30 write attempts and the first 12 flushes fail). non-trivial: a fault was injected, or the guard was dropped with a backlog, or lines were offered while the writer was stalled and (lines were dropped | mode is non-lossy); distinct by case".into()
     }
     fn assumptions(&self) -> Vec<String> {
         vec![
